@@ -193,6 +193,7 @@ class Env:
     def __init__(self):
         self.by_ty = {}      # ty -> [text]
         self.fields = []     # texts usable in $present (any type)
+        self.params = []     # runtime parameters: referred to like fields, but not fields
         self.enums = {}      # canonical enum name -> [value names] (only enums nameable in this module)
         self.alias = {}      # canonical enum name -> how this module spells it (`Ea`, `oth.Ea`)
 
@@ -200,11 +201,14 @@ class Env:
         self.by_ty.setdefault(ty, []).append(text)
         if field:
             self.fields.append((text, ty))
+        elif text != "this":
+            self.params.append((text, ty))
 
     def copy(self):
         e = Env()
         e.by_ty = {k: list(v) for k, v in self.by_ty.items()}
         e.fields = list(self.fields)
+        e.params = list(self.params)
         e.enums = self.enums
         e.alias = self.alias
         return e
@@ -942,7 +946,7 @@ def mut_function(r, m):
     bools = [(p, n) for p, n in subterms(s["expr"]) if n[0] == "bool" or (n[0] == "ref" and n[2] == "bool")
              or (n[0] == "bin" and n[1] in ORD + EQ + LOGIC) or (n[0] == "fn" and n[1] == "$present")]
     variant = r.choice(["max-0", "max-bool", "max-enum", "max-opaque", "max-bool", "max-enum",
-                        "present-0", "present-n", "present-expr", "present-const",
+                        "present-0", "present-n", "present-expr", "present-const", "present-param",
                         "upper-0", "upper-n", "upper-bool", "lower-0", "lower-n", "lower-enum"])
     detail = ""
     if variant.startswith("present"):
@@ -958,6 +962,11 @@ def mut_function(r, m):
             detail = "arity %d" % k
         elif variant == "present-expr":
             new = ("fn", "$present", [("bin", "+", g.gen("int", 1), ("num", 1))])
+        elif variant == "present-param":
+            # "The argument to `$present()` must be a reference to a field": a parameter is not one
+            if not env.params:
+                return None
+            new = ("fn", "$present", [("ref", r.choice(env.params)[0], "any")])
         else:
             c = _nameable_enum(r, env)
             new = ("fn", "$present", [r.choice([("num", 1), ("bool", True),
@@ -1394,5 +1403,59 @@ def _b_namesakes(r, positions):
             "lines": {"m.emb": L.bad}, "rule": rule}
 
 
+def _b_constancy(r):
+    """pass 3: values of the constant-demanding attributes that mention a field and fold to a
+    constant all the same (three-valued `&&`/`||`/`?:` in integer values, bound functions of
+    bounded operands, static references to virtual fields whose bounds are a single value), next
+    to look-alikes that do not; one enum (or struct) per attribute.  Integer values are constant
+    when `constant_value` knows them; boolean ones when the bounds pass gave the type a value,
+    which it does for `&&`/`||`/comparisons only if every operand is constant."""
+    L = _Lines()
+    L.ok('[$default byte_order: "LittleEndian"]')
+    L.ok("struct Src:")
+    L.ok("  0 [+1]  UInt  x")
+    L.ok("  1 [+1]  Int  sx")
+    L.ok("  2 [+2]  UInt  w")
+    L.ok("  4 [+1]  bits:")
+    L.ok("    0 [+1]  Flag  fb")
+    L.ok("    1 [+3]  UInt  nib")
+    L.ok("  let zero = x * 0")
+    L.ok("  let three = x * 0 + 3")
+    L.ok("  let same = x")
+    L.ok("  let half = x - x")            # bounds -255..255: not a single value
+    L.ok("  let c8 = 8")
+    L.ok("  let yes = 1 < 2")
+    L.ok("  let cmp = x == 1")
+    L.ok("  let ub = $upper_bound(x)")
+    L.ok("  let pick = fb ? 4 : 4")       # hull of 4 and 4
+    L.ok("  let pick2 = fb ? 4 : 5")
+    ints_ok = ["(false && Src.cmp) ? 4 : 8", "(true || Src.cmp) ? 4 : 8", "true ? 8 : Src.same",
+               "Src.zero + 8", "Src.three * 2 + 2", "Src.c8", "Src.c8 * 2 - Src.zero", "$max(Src.c8, 3)",
+               "$upper_bound(Src.same) - 247", "$lower_bound(Src.same) + 8", "Src.ub - 247",
+               "$upper_bound(Src.same * 2 + 1) - 503", "Src.pick * 2", "$upper_bound(Src.pick2) + 3",
+               "$max(Src.zero, 8)", "8 + 0 * 3", "$lower_bound(4) + $upper_bound(4)"]
+    ints_bad = ["Src.same", "Src.same * 0 + 8", "Src.half + 8", "(Src.cmp && false) ? 4 : Src.same",
+                "Src.cmp ? 8 : 8", "$max(Src.same, 8)", "Src.pick2", "Src.same - Src.same + 8",
+                "false ? 8 : Src.same"]
+    bools_ok = ["Src.yes", "Src.yes && true", "1 == 1 || 2 < 1", "Src.c8 == 8", "Src.zero == 0",
+                "$upper_bound(Src.same) == 255", "true ? Src.yes : false", "Src.three > 2 && Src.c8 >= 8"]
+    bools_bad = ["Src.cmp", "false && Src.cmp", "true || Src.cmp", "Src.same == Src.same", "Src.same >= 0",
+                 "Src.cmp ? true : true", "Src.half == 0"]
+    n = 0
+    for lst, attr, bad in ((ints_ok, "maximum_bits", False), (ints_bad, "maximum_bits", True),
+                           (bools_ok, "is_signed", False), (bools_bad, "is_signed", True)):
+        for v in lst:
+            n += 1
+            L.ok("enum En%d:" % n)
+            (L.err if bad else L.ok)("  [%s: %s]" % (attr, v))
+            L.ok("  AA = 1")
+    for v, bad in [(x, False) for x in ints_ok[:6]] + [(x, True) for x in ints_bad[:4]]:
+        n += 1
+        L.ok("external Ex%d:" % n)
+        (L.err if bad else L.ok)("  [addressable_unit_size: %s]" % v)
+    return {"name": "attribute-constancy", "files": {"m.emb": L.text()}, "lines": {"m.emb": L.bad},
+            "rule": "boundary:attribute-constancy"}
+
+
 def boundary_modules(r):
-    return [_b_functions(r), _b_positions(r), _b_namesakes(r, False), _b_namesakes(r, True)]
+    return [_b_functions(r), _b_positions(r), _b_namesakes(r, False), _b_namesakes(r, True), _b_constancy(r)]
